@@ -187,7 +187,7 @@ def expand(fn, expr, depth=6, stop_names=()):
             uv = rd.unique_value(e)
             if uv is not None:
                 dstmt, val = uv
-                if not _mentions(val, e.id):
+                if not _mentions(val, e.id) and not _attr_rebound_between(fn, dstmt, fn.stmt_of(e), val):
                     return rec(val, d - 1)
             return e
         if not isinstance(e, ast.AST):
@@ -224,6 +224,64 @@ def expand(fn, expr, depth=6, stop_names=()):
         return new
 
     return rec(expr, depth)
+
+
+def _attr_rebound_between(fn, dstmt, use_stmt, val):
+    """`t = <val reading obj.attr>` ... use of t: is obj.attr re-bound on some path from the definition to the use (a direct store, or a method of
+    the same class that stores it)?  Then the local is a STALE copy and must not be read as its defining expression."""
+    reads = {(n.value.id, n.attr) for n in ast.walk(val) if isinstance(n, ast.Attribute) and isinstance(n.value, ast.Name)}
+    if not reads or use_stmt is None or dstmt is use_stmt:
+        return False
+    key = (id(dstmt), id(use_stmt), tuple(sorted(reads)))
+    cache = fn.__dict__.setdefault("_rebound_cache", {})
+    if key in cache:
+        return cache[key]
+    cfg = fn.cfg
+    # statements on a path d -> x -> use that does not pass through d again
+    fwd, stack = set(), list(cfg.succ.get(dstmt, []))
+    while stack:
+        n = stack.pop()
+        if n in fwd or n is dstmt:
+            continue
+        fwd.add(n)
+        stack.extend(cfg.succ.get(n, []))
+    bwd, stack = set(), list(cfg.pred.get(use_stmt, []))
+    while stack:
+        n = stack.pop()
+        if n in bwd or n is dstmt:
+            continue
+        bwd.add(n)
+        stack.extend(cfg.pred.get(n, []))
+    res = False
+    for x in fwd & bwd:
+        if not isinstance(x, ast.stmt):
+            continue
+        parts = header_exprs(x) if isinstance(x, (ast.If, ast.For, ast.While, ast.With, ast.Try)) else [x]
+        for part in parts:
+            for n in ast.walk(part):
+                if isinstance(n, (ast.Assign, ast.AugAssign, ast.AnnAssign)):
+                    for t in (n.targets if isinstance(n, ast.Assign) else [n.target]):
+                        for y in ast.walk(t):
+                            if isinstance(y, ast.Attribute) and isinstance(y.value, ast.Name) and (y.value.id, y.attr) in reads and isinstance(y.ctx, ast.Store):
+                                res = True
+                if isinstance(n, ast.Call) and isinstance(n.func, ast.Attribute) and isinstance(n.func.value, ast.Name) and n.func.value.id == "self" \
+                        and getattr(fn, "cls", None) and any(o == "self" for o, _a in reads):
+                    callee = fn.repo.maybe_fn("%s.%s" % (fn.cls, n.func.attr)) if hasattr(fn.repo, "maybe_fn") else None
+                    if callee is not None and callee is not fn and _method_stores_attr(callee, {a for o, a in reads if o == "self"}):
+                        res = True
+    cache[key] = res
+    return res
+
+
+def _method_stores_attr(callee, attrs, depth=2):
+    for n in ast.walk(callee.node):
+        if isinstance(n, ast.Attribute) and isinstance(n.ctx, ast.Store) and isinstance(n.value, ast.Name) and n.value.id == "self" and n.attr in attrs:
+            return True
+        if depth > 0 and isinstance(n, ast.Call) and isinstance(n.func, ast.Attribute) and isinstance(n.func.value, ast.Name) and n.func.value.id == "self":
+            c2 = callee.repo.maybe_fn("%s.%s" % (callee.cls, n.func.attr)) if callee.cls else None
+            if c2 is not None and c2 is not callee and _method_stores_attr(c2, attrs, depth - 1):
+                return True
+    return False
 
 
 _MUTATORS = {"append", "extend", "insert", "remove", "pop", "clear", "sort", "reverse", "update", "add", "discard",
